@@ -277,6 +277,7 @@ class EncodeState:
             # integers of more than 64 bits
             odxraise(f"Integer objects must not exhibit more than 64 bits (is: {bit_length})",
                      EncodeError)
+            bit_length = 64
 
         format_char = base_data_type.bitstruct_format_letter
         padding = (8 - ((bit_length + self.cursor_bit_position) % 8)) % 8
